@@ -65,4 +65,58 @@ def chkBase (s : Spec3.Sc) (c i a : Spec3.CIA) : Bool :=
     combine (changedOf s) imp (easeF (fAV k.1) (fAC k.2.1) (fPR s k.2.2.1) (fUI k.2.2.2)) == tenth t.toNat
       && decide (1 ≤ t) && decide (t ≤ 100))
 
+abbrev TempKey := Spec3.E × Spec3.RL × Spec3.RC
+
+/-- Stage check for one base (or inner environmental) score `k/10`: for all 100 temporal
+    combinations the model's `roundUp(score × E × RL × RC)` is the double nearest to the
+    specification's tenth, which lies in 0..k and equals k when all three are Not Defined. -/
+def chkTemp (k : Nat) : Bool :=
+  cbv (tenth k) fun x =>
+  (Enum.all (α := TempKey)).all fun t =>
+    let q := temporalOfTenths (Int.ofNat k) ⟨t.1, t.2.1, t.2.2⟩
+    temporalF x (fE t.1) (fRL t.2.1) (fRC t.2.2) == tenth q.toNat
+      && decide (0 ≤ q) && decide (q ≤ Int.ofNat k)
+      && (!(t.1 == .X && t.2.1 == .X && t.2.2 == .X) || decide (q = Int.ofNat k))
+      && (k == 0 || decide (1 ≤ q))
+
+def fReq (x : Spec3.Req) : Nat := value0 .CR (iReq .CR x)
+
+/-- the seven distinct products requirement × impact weight: 0, 0.22·{½,1,1½}, 0.56·{½,1,1½} -/
+inductive P7 | z | l5 | l | l15 | h5 | h | h15
+  deriving DecidableEq, Repr
+
+instance : Enum P7 := ⟨[.z, .l5, .l, .l15, .h5, .h, .h15], by intro a; cases a <;> simp⟩
+
+def cls : Spec3.Req → Spec3.CIA → P7
+  | _, .N => .z
+  | .L, .L => .l5 | .X, .L => .l | .M, .L => .l | .H, .L => .l15
+  | .L, .H => .h5 | .X, .H => .h | .M, .H => .h | .H, .H => .h15
+
+/-- the model's product for a class (one representative) -/
+def p7F : P7 → Nat
+  | .z => mul (fReq .X) (fCIA .N)
+  | .l5 => mul (fReq .L) (fCIA .L) | .l => mul (fReq .X) (fCIA .L) | .l15 => mul (fReq .H) (fCIA .L)
+  | .h5 => mul (fReq .L) (fCIA .H) | .h => mul (fReq .X) (fCIA .H) | .h15 => mul (fReq .H) (fCIA .H)
+
+/-- the specification's product for a class -/
+def p7Q : P7 → Rat
+  | .z => wReq .X * wCIA .N
+  | .l5 => wReq .L * wCIA .L | .l => wReq .X * wCIA .L | .l15 => wReq .H * wCIA .L
+  | .h5 => wReq .L * wCIA .H | .h => wReq .X * wCIA .H | .h15 => wReq .H * wCIA .H
+
+def missQ (a b c : P7) : Rat := min (1 - (1 - p7Q a) * (1 - p7Q b) * (1 - p7Q c)) (q 915 1000)
+
+/-- Stage check for one (version, effective scope) and one triple of product classes: the
+    modified impact is evaluated once on each side; its sign agrees; for all 48
+    modified-exploitability combinations the model's inner round-up is the double nearest to
+    the specification's tenth, which lies in 1..100. -/
+def chkEnv (ver : Spec3.Ver) (sc : Spec3.Sc) (a b c : P7) : Bool :=
+  cbv (modImpactF (changedOf sc) (iVer ver) (missF (p7F a) (p7F b) (p7F c))) fun mi =>
+  cbvRat (modifiedImpact ver sc (missQ a b c)) fun miq =>
+  (le mi 0 == decide (miq ≤ 0)) &&
+  (le mi 0 || (Enum.all (α := EaseKey)).all fun k =>
+    let t := combineQ sc miq (exploitability k.1 k.2.1 k.2.2.1 sc k.2.2.2)
+    combine (changedOf sc) mi (easeF (fAV k.1) (fAC k.2.1) (fPR sc k.2.2.1) (fUI k.2.2.2)) == tenth t.toNat
+      && decide (1 ≤ t) && decide (t ≤ 100))
+
 end CvssVerif.P3
